@@ -16,9 +16,9 @@ import (
 // comparisons; at every comparison, index and slice bound the |coefficients| sum to at
 // most 4 over both operands and the |constants| to at most 1.
 //
-// TABLE: the SSA is followed for every len in 0..6 and offset, length in -9..9 (quick;
-// the thorough tier doubles every range and must give the same verdicts, which is the
-// cross-check that the box is large enough) and compared with the statement:
+// TABLE: the SSA is followed for every len in 0..L and offset, length in -W..W (L, W at
+// least 6 and 9 - 12 and 18 in the thorough tier - and at least what the half-planes the
+// code decides by require, see below) and compared with the statement:
 //
 //	start = offset            if offset >= 0
 //	      = len + offset      otherwise
@@ -30,11 +30,15 @@ import (
 //
 // and a slice expression with bounds outside 0 <= lo <= hi <= len is a panic.
 //
-// The box argument of c13nth.go is weaker in three dimensions with coefficients up to
-// 4; it is an argument about a small hyperplane arrangement (all vertices lie within
-// 2 units of the origin for the forms Substr uses), not a proof, and is recorded as
-// such in the evidence. Overflow of len+offset / offset+length at the extremes of int
-// is not decided.
+// How large the box has to be is not assumed: a first pass over the base box records
+// every half-plane the code decides by (the affine form of both operands of every
+// integer comparison and of every slice bound, tracked symbolically along the executed
+// path), the statement's own planes are added, and boxNeeded computes from them, exactly,
+// the largest vertex coordinate V of the arrangement and the largest entry G of a
+// primitive direction vector of a line of intersection; the table then covers
+// V + 3G + 2 in every coordinate (8 for len and 11 for the arguments on the pinned tree,
+// from 14 planes, all through the origin up to the +-1 of strictness). Overflow of
+// len+offset / offset+length at the extremes of int is not decided.
 
 func substrRegion(L, o, n int64) string {
 	cls := func(x, lo, hi int64, name, loName, hiName string) string {
@@ -102,82 +106,72 @@ func checkSubstr(c rc, thorough bool) {
 		c.und("BD2", name, "offset arithmetic is piecewise affine with small coefficients", c.fpos(fn), "the table over lengths 0..6 and offsets/lengths -9..9 decides Substr only when its tests and slice bounds are affine forms of (len, offset, length) with |coefficients| summing to at most 4 and |constants| to at most 1: "+why)
 		return
 	}
-	maxL, w := int64(6), int64(9)
+	baseL, baseW := int64(6), int64(9)
 	if thorough {
-		maxL, w = 12, 18
+		baseL, baseW = 12, 18
 	}
 	c.r.Floor("BD2", 2000)
-	reported := map[string]bool{}
-	for L := int64(0); L <= maxL; L++ {
-		for o := -w; o <= w; o++ {
-			for n := -w; n <= w; n++ {
-				out, ok, why := miniEval(fn, map[*ssa.Parameter]mv{off: {k: mvInt, n: o}, ln: {k: mvInt, n: n}}, miniEnv{p: p, slice: str, length: L})
-				if !ok {
-					c.und("BD2", name, "selection table", c.fpos(fn), "Substr cannot be followed by the table's evaluator ("+why+")")
-					return
-				}
-				// the statement
-				start := o
-				if o < 0 {
-					start = L + o
-				}
-				wantLo, wantHi := int64(0), int64(0) // empty
-				if start >= 0 && start <= L {
-					end := L + n
-					if n >= 0 {
-						end = start + n
-						if end > L {
-							end = L
-						}
-					}
-					if end >= start {
-						wantLo, wantHi = start, end
+	runAffTable(c, affTable{rule: "BD2", name: name, fn: fn, slice: str, ints: []*ssa.Parameter{off, ln}, baseL: baseL, baseW: baseW, capL: 16, capW: 30,
+		// the statement's regions: offset >= 0; start = offset | len+offset in [0, len];
+		// length >= 0; end = start+length vs len; end = len+length vs start
+		stmtPlanes: [][4]int64{{0, 1, 0, 0}, {-1, 1, 0, 0}, {1, 1, 0, 0}, {0, 0, 1, 0}, {-1, 1, 1, 0}, {0, 1, 1, 0}, {1, -1, 1, 0}, {0, -1, 1, 0}},
+		call: func(L int64, a []int64) string {
+			return fmt.Sprintf("Substr(string of length %d, %d, %d)", L, a[0], a[1])
+		},
+		judge: func(L int64, a []int64, out miniOut, _ []int64) (bool, string, string) {
+			o, n := a[0], a[1]
+			start := o
+			if o < 0 {
+				start = L + o
+			}
+			wantLo, wantHi := int64(0), int64(0) // empty
+			if start >= 0 && start <= L {
+				end := L + n
+				if n >= 0 {
+					end = start + n
+					if end > L {
+						end = L
 					}
 				}
-				okV := true
-				reason := ""
-				describe := func(lo, hi int64) string {
-					if lo == hi {
-						return "the empty string"
-					}
-					return fmt.Sprintf("str[%d:%d]", lo, hi)
-				}
-				switch {
-				case out.panics:
-					okV = false
-					reason = fmt.Sprintf("panics (%s); the definition wants %s", out.why, describe(wantLo, wantHi))
-				case len(out.results) != 1:
-					okV = false
-					reason = "does not return one value"
-				default:
-					r := out.results[0]
-					gotLo, gotHi := int64(0), int64(0)
-					switch r.k {
-					case mvSub:
-						gotLo, gotHi = r.n, r.m
-					case mvZero:
-					case mvSlice:
-						gotLo, gotHi = 0, L
-					default:
-						okV = false
-						reason = "returns something other than a part of the string"
-					}
-					if okV && !(gotLo == wantLo && gotHi == wantHi) && !(gotLo == gotHi && wantLo == wantHi) {
-						okV = false
-						reason = fmt.Sprintf("returns %s, the definition wants %s", describe(gotLo, gotHi), describe(wantLo, wantHi))
-					}
-				}
-				c.r.Obligation("BD2", okV, map[string]any{"rule": "BD2", "function": name, "len": L, "offset": o, "length": n, "ok": okV})
-				if !okV {
-					region := substrRegion(L, o, n)
-					if !reported[region] && len(reported) < 6 {
-						reported[region] = true
-						c.r.Violation(coreDiag("BD2", name, region, c.fpos(fn), fmt.Sprintf("Substr(string of length %d, %d, %d) %s", L, o, n, reason)))
-					}
+				if end >= start {
+					wantLo, wantHi = start, end
 				}
 			}
-		}
-	}
+			okV := true
+			reason := ""
+			describe := func(lo, hi int64) string {
+				if lo == hi {
+					return "the empty string"
+				}
+				return fmt.Sprintf("str[%d:%d]", lo, hi)
+			}
+			switch {
+			case out.panics:
+				okV = false
+				reason = fmt.Sprintf("panics (%s); the definition wants %s", out.why, describe(wantLo, wantHi))
+			case len(out.results) != 1:
+				okV = false
+				reason = "does not return one value"
+			default:
+				r := out.results[0]
+				gotLo, gotHi := int64(0), int64(0)
+				switch r.k {
+				case mvSub:
+					gotLo, gotHi = r.n, r.m
+				case mvZero:
+				case mvSlice:
+					gotLo, gotHi = 0, L
+				default:
+					okV = false
+					reason = "returns something other than a part of the string"
+				}
+				if okV && !(gotLo == wantLo && gotHi == wantHi) && !(gotLo == gotHi && wantLo == wantHi) {
+					okV = false
+					reason = fmt.Sprintf("returns %s, the definition wants %s", describe(gotLo, gotHi), describe(wantLo, wantHi))
+				}
+			}
+			return okV, reason, substrRegion(L, o, n)
+		}})
 }
 
 func coreTypeOf(tp *types.TypeParam) types.Type {
